@@ -296,13 +296,56 @@ def summarize(interp, n, get, run_body, env, collect_value=False):
                 return v
             return V.ite(c, v, old(idx)) if c is not False else old(idx)
         arr.assign_fn(newfn)
-    for key, (lst, vals) in frame.appends.items():
-        if len(vals) != 1:
-            raise Unsupported("a symbolic loop appends more than once per iteration to the same list")
-        v = vals[0]
-        block = SList(n, lambda j, v=v: subst_value(v, Lc, j))
-        new = SList.concat(list(lst), block)
-        interp.rebind(lst, new, env)
+    for key, (lst, items) in frame.appends.items():
+        # per-iteration block = concatenation of the appended items / blocks, of iteration-independent length m
+        parts = []
+        for kind, v in items:
+            if kind == "one":
+                parts.append((1, (lambda v: lambda q: v)(v)))
+            else:
+                bn = len(v) if isinstance(v, list) else v.n
+                if mentions(bn, Lc):
+                    raise Unsupported("block appended in a summarised loop has an iteration-dependent length")
+                getter = (lambda v: (lambda q: _seq_get(v, q)))(v) if isinstance(v, list) else v.fn
+                parts.append((bn, getter))
+        m = 0
+        for bn, _g in parts:
+            m = V.arith("+", m, bn)
+
+        def block_elem(q, parts=parts):
+            """element q of the per-iteration block (still a function of L)"""
+            off = 0
+            res = None
+            chain = []
+            for bn, g in parts:
+                chain.append((off, bn, g))
+                off = V.arith("+", off, bn)
+            # last part is the default; earlier parts selected by range tests
+            r = None
+            for off_, bn, g in reversed(chain):
+                val = g(V.arith("-", q, off_))
+                if r is None:
+                    r = val
+                else:
+                    c = V.compare("<", q, V.arith("+", off_, bn))
+                    r = ite_value(c, val, r)
+            return r
+        if isinstance(m, int) and m == 1:
+            block = SList(n, lambda j, block_elem=block_elem: subst_value(block_elem(0), Lc, j))
+        else:
+            def elem(p_, block_elem=block_elem, m=m):
+                it_ = V.arith("//", p_, m)
+                q = V.arith("%", p_, m)
+                return subst_value(block_elem(q), Lc, it_)
+            block = SList(V.arith("*", n, m), elem)
+        outer = interp.loop_stack[-1] if interp.loop_stack else None
+        if outer is not None and id(lst) in outer.outer_lists:
+            # the list pre-dates the enclosing summarised loop as well: a block append of that loop's iteration
+            outer.appends.setdefault(id(lst), (lst, []))[1].append(("block", block))
+            outer.written.add(id(lst))
+        else:
+            new = SList.concat(list(lst), block)
+            interp.rebind(lst, new, env)
     if collect_value:
         return SList(n, lambda j: subst_value(val, Lc, j))
     return None
